@@ -28,12 +28,12 @@ SHIMS = ["connection_manager = namespace with a fake API client whose set_power(
          "managers built with __new__ + the attributes the encoded methods read; status tracker / data caches are recording fakes", "math.isclose dispatch on proxies"]
 ASSUMPTIONS = ["exact reals", "battery: set-points and remainder are arbitrary symbolic reals ('direct' instances) or come from the real distribution algorithm on symbolic "
                "data as in C01 ('full' instances)", "PV: request <= 0, each inverter's inclusion lower bound symbolic <= 0"]
-BOUNDS = {"quick": "battery: 3 inverters incl. one feeding two batteries, and a battery behind two inverters, 5 outcomes per call; full path 1 and 2 groups with all calls succeeding and "
-                   "with 5 outcomes for 1 group; PV: 2 and 3 inverters, 5 outcomes per call",
+BOUNDS = {"quick": "battery: 3 inverters incl. one feeding two batteries, and a battery behind two inverters, 6 outcomes per call; full path 1 and 2 groups with all calls succeeding and "
+                   "with 5 outcomes for 1 group; PV: 2 and 3 inverters, 6 outcomes per call",
           "thorough": "battery full path with outcomes for 2 groups; PV 4 inverters"}
 OUTSIDE = "EV charger manager; result fan-out through channels; more inverters"
 BUDGET = {"quick": 900, "thorough": 1500}
-OUT = ["ok", "range", "client", "other", "timeout"]
+OUT = ["ok", "range", "client", "other", "timeout", "slow_ok"]
 
 
 def _grpc():
@@ -49,9 +49,12 @@ def make_api(ex, calls, outcomes, all_ok=False):
     class Api:
         async def set_power(self, cid, w):
             calls.append((cid, w))
-            o = "ok" if all_ok else OUT[ex.choice(f"outcome{cid}", 5)]
-            outcomes[cid] = o
+            o = "ok" if all_ok else OUT[ex.choice(f"outcome{cid}", len(OUT))]
+            outcomes[cid] = "ok" if o == "slow_ok" else o
             if o == "ok":
+                return
+            if o == "slow_ok":  # succeeds well within the request timeout, but later than the other calls
+                await asyncio.sleep(1.0)
                 return
             if o == "range":
                 raise OperationOutOfRange(server_url="x", operation="y", grpc_error=_grpc())
@@ -244,18 +247,18 @@ def instances(tier):
     nl = dict(incremental=False, validate_every=40, timeout_ms=30000)
     out = [
         I("reach:battery-direct", "make_battery_direct", (T1, True), "reachability twin", budget_s=60, validate_every=0),
-        I("battery-direct-T1", "make_battery_direct", (T1,), "3 inverters, one feeding two batteries; 5 outcomes per call", budget_s=200, **kw),
-        I("battery-direct-T2", "make_battery_direct", (T2,), "a battery behind two inverters; 5 outcomes per call", budget_s=200, **kw),
+        I("battery-direct-T1", "make_battery_direct", (T1,), "3 inverters, one feeding two batteries; 6 outcomes per call", budget_s=200, **kw),
+        I("battery-direct-T2", "make_battery_direct", (T2,), "a battery behind two inverters; 6 outcomes per call", budget_s=200, **kw),
         I("battery-full-1x1x1+ok", "make_battery_full", (((1, 1),), 1, True), "real distribution, 1 group, consume, all calls succeed", budget_s=200, **nl),
         I("battery-full-1x1x1-ok", "make_battery_full", (((1, 1),), -1, True), "real distribution, 1 group, supply, all calls succeed", budget_s=200, **nl),
-        I("battery-full-1x1x2-", "make_battery_full", (((1, 2),), -1, False), "real distribution, battery behind 2 inverters, supply, 5 outcomes per call", budget_s=400, **nl),
+        I("battery-full-1x1x2-", "make_battery_full", (((1, 2),), -1, False), "real distribution, battery behind 2 inverters, supply, 6 outcomes per call", budget_s=400, **nl),
         I("battery-full-2x(1x1)-ok", "make_battery_full", (((1, 1), (1, 1)), -1, True), "real distribution, 2 groups, supply, all calls succeed", budget_s=600, **nl),
-        I("pv-2", "make_pv", (2,), "2 PV inverters, 5 outcomes per call", budget_s=200, **kw),
-        I("pv-3", "make_pv", (3,), "3 PV inverters, 5 outcomes per call", budget_s=400, **kw),
+        I("pv-2", "make_pv", (2,), "2 PV inverters, 6 outcomes per call", budget_s=200, **kw),
+        I("pv-3", "make_pv", (3,), "3 PV inverters, 6 outcomes per call", budget_s=400, **kw),
     ]
     if tier != "quick":
         out += [
-            I("battery-full-2x(1x1)+", "make_battery_full", (((1, 1), (1, 1)), 1, False), "real distribution, 2 groups, 5 outcomes per call (budgeted)", budget_s=1200,
+            I("battery-full-2x(1x1)+", "make_battery_full", (((1, 1), (1, 1)), 1, False), "real distribution, 2 groups, 6 outcomes per call (budgeted)", budget_s=1200,
               exhaustive=False, **nl),
             I("pv-4", "make_pv", (4,), "4 PV inverters", budget_s=900, exhaustive=False, **kw),
         ]
